@@ -169,7 +169,7 @@ def replay_generated(ctx, n, depth):
 def random_histories(ctx, runs, ops, seed, extra=None, label="rand"):
     tp = ctx.path(f"{label}_trace.ndjson")
     args = ["random", "--seed", seed, "--runs", runs, "--ops", ops, "--flush", "mix", "--threads", "mix",
-            "--merge", "mix", "--no-storage", "--out", tp] + (extra or [])
+            "--merge", "mix", "--sorted", "mix", "--no-storage", "--out", tp] + (extra or [])
     vlib.run_bin("core_driver", args, timeout=900)
     ev = vlib.read_ndjson(tp)
     n_ok = validate_runs(ctx, ev, label)
